@@ -303,11 +303,13 @@ PROFILES = {
     "wide": dict(durs=[1, 7, "DYN", 0, -3], pads=["E0", "E1010", "E0101", "A32", "A14", "Arel", "Arel2"],
                  args=["t1", "t2", "base", "bad"], sizes=[(1, 1), (2, 1), (1, 3)]),
     "small": dict(durs=[7, "DYN", 0], pads=["E1010", "Arel"], args=["t1", "bad"], sizes=[(1, 1)]),
-    "tiny": dict(durs=[7, 0], pads=["Arel"], args=["t1", "bad"], sizes=[(1, 1)]),
-    "dur": dict(durs=[1, 7, "DYN", 0], pads=["Arel"], args=["bad"], sizes=[]),
-    "args": dict(durs=[0], pads=["E1010"], args=["t1", "t2", "base", "bad"], sizes=[]),
-    "size": dict(durs=[0], pads=["A32"], args=["bad"], sizes=[(1, 1), (2, 1), (2, 2)]),
-    "one": dict(durs=[0], pads=["E1010"], args=["t1", "bad"], sizes=[]),
+    "tiny": dict(durs=[7, 0], pads=["E1010", "Arel"], args=["t1", "bad"], sizes=[(1, 1)]),
+    "dur": dict(durs=[1, 7, "DYN", 0], pads=["E0", "Arel"], args=["bad"], sizes=[]),
+    "args": dict(durs=[0], pads=["E0", "E1010"], args=["t1", "t2", "base", "bad"], sizes=[]),
+    "size": dict(durs=[0], pads=["E1010", "A32"], args=["bad"], sizes=[(1, 1), (2, 1), (2, 2)]),
+    # every cached profile offers at least two paddings that differ from each other (a padded frame stored in
+    # the cache only shows after the padding changed to another one that pads)
+    "one": dict(durs=[0], pads=["E0", "E1010", "A32"], args=["t1", "bad"], sizes=[]),
     "pad": dict(durs=[0], pads=["E0", "E1010", "A32", "Arel", "Arel2"], args=["bad"], sizes=[(1, 1)]),
 }
 
